@@ -1265,3 +1265,68 @@ func mergeTaggedRule(r *Report, p *Prog, rule string) int {
 	}
 	return n
 }
+
+// boolCaseRule (C15.j BOOL-CASE): the boolean fields of a POM (optional,
+// activeByDefault, inherited, enabled) are strings with two writers: the XML
+// decoder, which lower-cases a literal, and interpolate, which stores the
+// value of a property as it was written. Maven reads them with
+// Boolean.parseBoolean, which ignores case. The reader Boolean() must
+// therefore not compare the text with a non-empty literal by ==, unless
+// interpolate folds what it stores: <optional>${opt}</optional> with
+// <opt>TRUE</opt> came out non-optional.
+func boolCaseRule(r *Report, p *Prog, rule string) int {
+	n := 0
+	for _, f := range p.Funcs {
+		if f.Pkg == nil || f.Blocks == nil || f.Synthetic != "" || f.Pkg.Pkg.Path() != modPrefix+"maven" {
+			continue
+		}
+		if f.Name() != "Boolean" || f.Signature.Recv() == nil {
+			continue
+		}
+		recvT := f.Signature.Recv().Type()
+		// the sibling writer
+		var interp *ssa.Function
+		for _, g := range p.Funcs {
+			if g.Pkg == f.Pkg && g.Name() == "interpolate" && g.Signature.Recv() != nil && types.Identical(g.Signature.Recv().Type(), recvT) {
+				interp = g
+			}
+		}
+		if interp == nil {
+			continue
+		}
+		n++
+		key := fmt.Sprintf("%s: reads the text whatever its case", fnKey(f))
+		folds := false
+		for _, b := range interp.Blocks {
+			for _, in := range b.Instrs {
+				if c, ok := in.(*ssa.Call); ok && (staticCalleeName(c) == "strings.ToLower") {
+					folds = true
+				}
+			}
+		}
+		var lit string
+		var at token.Pos
+		for _, b := range f.Blocks {
+			for _, in := range b.Instrs {
+				bo, ok := in.(*ssa.BinOp)
+				if !ok || (bo.Op != token.EQL && bo.Op != token.NEQ) {
+					continue
+				}
+				for _, o := range []ssa.Value{bo.X, bo.Y} {
+					if k, ok := o.(*ssa.Const); ok && k.Value != nil && k.Value.Kind() == constant.String && constant.StringVal(k.Value) != "" {
+						lit, at = constant.StringVal(k.Value), bo.Pos()
+					}
+				}
+			}
+		}
+		switch {
+		case lit == "":
+			r.ok(rule, key, p.pos(f.Pos()), "no comparison with a non-empty literal by ==")
+		case folds:
+			r.ok(rule, key, p.pos(at), "compared with a literal, and interpolate lower-cases what it stores")
+		default:
+			r.bad(rule, key, p.pos(at), fmt.Sprintf("the text is compared with %q by ==, but interpolate stores the value of a property as written (only the XML decoder lower-cases): a value TRUE that comes in through a property reads as false, where Maven's Boolean.parseBoolean ignores case", lit))
+		}
+	}
+	return n
+}
